@@ -220,7 +220,9 @@ type certView struct {
 // fieldKey makes a short canonical key from the first differing flat key.
 func fieldKey(d []fdiff) string { return classOf(d[0].K) }
 
-func showDiff(d []fdiff) string {
+func showDiff(d []fdiff) string { return showDiffAs(d, "built", "seen") }
+
+func showDiffAs(d []fdiff, la, lb string) string {
 	s := ""
 	for i, x := range d {
 		if i == 3 {
@@ -231,7 +233,7 @@ func showDiff(d []fdiff) string {
 			s += fmt.Sprintf(" %s differs;", x.K) // wall-clock dependent value: not printed
 			continue
 		}
-		s += fmt.Sprintf(" %s: built=%s seen=%s;", x.K, x.A, x.B)
+		s += fmt.Sprintf(" %s: %s=%s %s=%s;", x.K, la, x.A, lb, x.B)
 	}
 	return s
 }
@@ -286,7 +288,19 @@ func checkCert(c *mc.Ctx, w *world, cert *agglayertypes.Certificate, what string
 
 	// commitments: real functions on the object vs reference on what was sent / stored
 	hc := deepCopyCert(cert) // the real hash functions write into the object (nil amount → 0)
-	v := &certView{flat: fs, pp: hc.PPHashToSign().Bytes(), fep: hc.FEPHashToSign().Bytes(), id: hc.Hash().Bytes()}
+	v := &certView{flat: fs}
+	func() {
+		defer func() {
+			if x := recover(); x != nil {
+				c.Failf("commit/panics", "%s: a commitment function panics: %v", what, x)
+				v = nil
+			}
+		}()
+		v.pp, v.fep, v.id = hc.PPHashToSign().Bytes(), hc.FEPHashToSign().Bytes(), hc.Hash().Bytes()
+	}()
+	if v == nil {
+		return nil, false
+	}
 	for _, x := range []struct {
 		name string
 		real []byte
@@ -356,7 +370,7 @@ func run(c *mc.Ctx, u mc.Unit) {
 		c.Failf("transport/json/"+fieldKey(d), "%s: the stored copy differs from the built certificate:%s", in, showDiff(d))
 	}
 	if d := diffFlat(flat(nw), flat(nj)); len(d) > 0 {
-		c.Failf("stored-ne-sent/"+fieldKey(d), "%s: the stored copy differs from the submitted message:%s", in, showDiff(d))
+		c.Failf("stored-ne-sent/"+fieldKey(d), "%s: the stored copy differs from the submitted message:%s", in, showDiffAs(d, "sent", "stored"))
 	}
 
 	// ---- oracle 1+2: what was signed, by whom
